@@ -32,7 +32,7 @@ FUNCTIONS = ['construct_repetition_code_circuit', 'get_circuit_qec_with_detector
              'DetectorOperation.to_stim_instruction', 'LogicalObservableOperation.to_stim_instruction', 'to_stim', 'DeclarativeCircuit.apply_modifiers/flatten']
 BOUNDS = {'quick': "enum: d in {2,3}, cycles 0..5, all 2^d data states (ancillas default), d=2 additionally every ancilla state; sym (all initial states of data and ancilla qubits "
                    "at once): d in {2,3,4}, cycles 0..5; chain from length (refocusing on and off) and one 3-data-qubit sub-chain of Repetition9Code; as built, unrolled and flattened",
-          'thorough': "enum: d <= 3 all data x ancilla states, cycles 0..7; sym: d <= 5, cycles 0..7, every contiguous sub-chain (2..4 data qubits) of the three shipped layouts"}
+          'thorough': "enum: d <= 3 all data x ancilla states, cycles 0..9; sym: d <= 6, cycles 0..9, every contiguous sub-chain (2..5 data qubits, cycles 0,1,2,3,4,6) of the three shipped layouts"}
 OUTSIDE = ["d > 5, cycles > 7", "non-computational initial states (PLUS/MINUS/...)", "noise", "the 'sym' mode relies on the exported circuits of different initial states differing only by I/X at "
            "one position per qubit, which is checked on all-ZERO / all-ONE / every single flip, not on all 2^(2d-1) vectors"]
 ASSUMPTIONS = ["the tableau stands for Stim's simulator (validated against stim's sampler on the concrete twin and on random Clifford circuits in every run)",
@@ -45,7 +45,7 @@ JOB_OPTS = {'quick': dict(max_paths=50, max_seconds=900), 'thorough': dict(max_p
 
 def jobs(tier, seed):
     out = []
-    cmax = 5 if tier == 'quick' else 7
+    cmax = 5 if tier == 'quick' else 9
     descs = [None, {'refocus': False}]
     for d in (2, 3):
         for cycles in range(0, cmax + 1):
@@ -56,7 +56,7 @@ def jobs(tier, seed):
                     if any(abits):
                         for bits in ([0] * d, [1] + [0] * (d - 1)) if tier == 'quick' else itertools.product((0, 1), repeat=d):
                             out.append({'mode': 'enum', 'd': d, 'cycles': cycles, 'data': list(bits), 'ancilla': list(abits), 'desc': None})
-    dmax = 4 if tier == 'quick' else 5
+    dmax = 4 if tier == 'quick' else 6
     for d in range(2, dmax + 1):
         for cycles in range(0, cmax + 1):
             for desc in descs:
@@ -67,8 +67,8 @@ def jobs(tier, seed):
             out.append({'mode': 'sym', 'd': 3, 'cycles': cycles, 'desc': {'layout': 'Repetition9Code', 'involved': sc}})
     else:
         for name in lib.LAYOUTS:
-            for sc in lib.sub_chains(name, 2, 4):
-                for cycles in (0, 1, 2, 4):
+            for sc in lib.sub_chains(name, 2, 5):
+                for cycles in (0, 1, 2, 3, 4, 6):
                     out.append({'mode': 'sym', 'd': (len(sc) + 1) // 2, 'cycles': cycles, 'desc': {'layout': name, 'involved': sc}})
     return out
 
